@@ -158,6 +158,17 @@ impl<B: AsRef<[usize]> + BitLength> Rank9<B, Box<[BlockCounters]>> {
         // We use the last counter to store the total number of ones
         let mut counts = Vec::with_capacity(num_counts + 1);
 
+        // The content of the last word beyond the length of the vector is
+        // arbitrary and must not be counted
+        let residual = num_bits % usize::BITS as usize;
+        let count_ones = |i: usize| -> usize {
+            let mut word = bits.as_ref()[i];
+            if residual != 0 && i == num_words - 1 {
+                word &= (1 << residual) - 1;
+            }
+            word.count_ones() as usize
+        };
+
         let mut num_ones = 0;
 
         for i in (0..num_words).step_by(Self::WORDS_PER_BLOCK) {
@@ -165,13 +176,13 @@ impl<B: AsRef<[usize]> + BitLength> Rank9<B, Box<[BlockCounters]>> {
                 absolute: num_ones,
                 relative: 0,
             };
-            num_ones += bits.as_ref()[i].count_ones() as usize;
+            num_ones += count_ones(i);
 
             for j in 1..8 {
                 let rel_count = num_ones - count.absolute;
                 count.set_rel(j, rel_count);
                 if i + j < num_words {
-                    num_ones += bits.as_ref()[i + j].count_ones() as usize;
+                    num_ones += count_ones(i + j);
                 }
             }
 
